@@ -97,3 +97,47 @@ def budget(M, var, lam, chi2, ll, n, e, r=None):
     # the Kepler column is the same oracle on both sides, so no solver-tolerance term is needed
     tol = 10 * eps * (cA * chi2 + n * cB) + 1e-11 * (1 + abs(ll))
     return tol, (cA < 1e8 and cB < 1e10), cA, cB
+
+
+def lu_nopivot(A):
+    """exact Doolittle LU without pivoting (exists for positive definite A): returns (L, U) lists of Fractions or None"""
+    k = len(A)
+    L = [[F(int(i == j)) for j in range(k)] for i in range(k)]
+    U = [[F(0)] * k for _ in range(k)]
+    for i in range(k):
+        for j in range(i, k):
+            U[i][j] = A[i][j] - sum(L[i][m] * U[m][j] for m in range(i))
+        if U[i][i] == 0:
+            return None
+        for j in range(i + 1, k):
+            L[j][i] = (A[j][i] - sum(L[j][m] * U[m][i] for m in range(i))) / U[i][i]
+    return L, U
+
+
+def fstr(q):
+    q = F(q)
+    return f"{q.numerator}/{q.denominator}"
+
+
+def lean_eval_cert(ctx, M, y, ivar, s, mu, lam):
+    """certified evaluation of the Lean model for any size: the harness computes an inverse and an LU certificate of
+    A^-1 in exact rationals, the Lean side checks them (Kernel.checkInv / checkLU, proved sound) and evaluates chi2,
+    det B, a.  Inputs are doubles (exact rationals)."""
+    from exact import gauss_inv
+    n, k = M.shape
+    Mf = [[F(float(M[i, j])) for j in range(k)] for i in range(n)]
+    iv = [F(float(v)) for v in ivar]
+    sf = F(float(s))
+    lamf = [F(float(v)) for v in lam]
+    siv = [v / (1 + sf * sf * v) for v in iv]
+    Ainv = [[(1 / lamf[i] if i == j else F(0)) + sum(Mf[t][i] * siv[t] * Mf[t][j] for t in range(n)) for j in range(k)] for i in range(k)]
+    X = gauss_inv(np.array(Ainv, dtype=object))
+    lu = lu_nopivot(Ainv)
+    if X is None or lu is None:
+        return {"singular": "no certificate"}
+    L, U = lu
+    flat = lambda A_: [fstr(A_[i][j]) for i in range(k) for j in range(k)]
+    op = {"op": "kernel.evalcert", "n": n, "k": k, "M": [fstr(v) for row in Mf for v in row], "y": [fstr(F(float(v))) for v in y],
+          "ivar": [fstr(v) for v in iv], "s": fstr(sf), "mu": [fstr(F(float(v))) for v in mu], "lam": [fstr(v) for v in lamf],
+          "X": flat(X), "L": flat(L), "U": flat(U)}
+    return ctx.model(op)
